@@ -14,6 +14,10 @@ One clause only is decided; everything else in C11 quantifies over run-time mixi
               water of the target cell - as an exact rational identity in the code's own symbols (mix_f_m, water_m, m[i], ...).
               Cells whose water is not measured by the code weigh 1 (equal cells): the identity is then "the factors sum to
               1", which is also the convexity (bounded mixing) condition on generated recipes.
+  C11.transfer  multicomponent diffusion moves an amount out of one cell's element totals and into its neighbour's (multi_D: the
+              giving side subtracts tot1, the receiving side adds tot2).  The two sides select the entry of the totals map by
+              the same whole-name match (prefix compare plus equal lengths); if one side matches differently, what leaves "N"
+              in one cell can arrive in "Na" in the other
 Not decided: conservation of the column inventory, mixing-factor arithmetic, convexity (bounded mixing), stagnant zones,
 multicomponent diffusion, boundary conditions.
 """
@@ -170,8 +174,36 @@ def conv_idx(nd, sym, RF):
     return RF.from_tree(nd, sym)
 
 
+def transfer_rule(P, R):
+    from .. import shape as SH
+    R.rule("C11.transfer", "multi_D: the giving and the receiving cell select the element total by the same match condition", minimum=1)
+    f = P.one("Phreeqc::multi_D")
+    sites = {}
+    for x in T.walk(f["body"]):
+        if x[0] == "If":
+            for w in T.walk(x[3]):
+                if w[0] == "Bin" and w[2] in ("-=", "+=") and T.strip_casts(w[4])[0] == "Member" and T.strip_casts(w[4])[2].split("::")[-1] in ("tot1", "tot2") and "second" in T.text(w[3]):
+                    nm = T.strip_casts(w[4])[2].split("::")[-1]
+                    if any(T.callee_name(c) in ("strncmp", "strcmp") for c in T.calls(x[2])):
+                        sites.setdefault(nm, []).append((x, w))
+    if "tot1" not in sites or "tot2" not in sites:
+        R.anchor_missing("C11.transfer", "multi_D: the tot1 / tot2 transfer sites were not found")
+        return
+    a, b = sites["tot1"][0], sites["tot2"][0]
+    sa, sb = SH.shape(a[0][2]), SH.shape(b[0][2])
+    signs = (a[1][2], b[1][2])
+    if sa == sb and signs == ("-=", "+="):
+        R.ok("C11.transfer", "multi_D:tot1~tot2", "same match condition; giver -= tot1, receiver += tot2")
+    elif sa != sb:
+        R.violation("C11.transfer", "multi_D:tot1~tot2", "the receiving side selects the element total by `%s`, the giving side by `%s`: the amount can arrive under another element's name"
+                    % (T.text(b[0][2])[:90], T.text(a[0][2])[:90]), file=f["file"], line=b[0][1], function=f["q"])
+    else:
+        R.violation("C11.transfer", "multi_D:tot1~tot2", "expected giver -= tot1 and receiver += tot2, found %s / %s" % signs, file=f["file"], line=b[0][1], function=f["q"])
+
+
 def run(P, R, tier):
     mixwater_rule(P, R)
+    transfer_rule(P, R)
     R.undecided += ["conservation of the column inventory over shifts (mixing-factor arithmetic)", "bounded mixing / convexity",
                     "stagnant zones, multicomponent diffusion, boundary conditions, reactive solids"]
     R.rule("C11.shift", "in-place advective shift loops over the solution store walk against the copy direction (each source is read before it is overwritten)", minimum=2)
